@@ -94,6 +94,12 @@ Definition step (st : rstate) (op : list tok) : rstate * list tok :=
       (* black-box: an answer above the ceiling is turned into an error answer and the
          worker goes on answering; nothing of the model is involved *)
       (st, [TS "failure"; TS "later_answered"])
+    else if name =? "bb_oversize_prefix" then
+      (* black-box, open finding oversize-worker-loop: the worker's own read loop does not
+         give the channel up after a declared length above the ceiling; the observation is
+         whatever the implementation shows (answered / closed / silent), the oracle is the
+         driver's *)
+      (st, match args with [_; _] => [] | _ => [TS "badop"] end)
     else if name =? "retype" then
       (* Channel::into moves every field: buffers, interest and readiness are unchanged *)
       (mkr (retype c) s (rbad st), st_toks (retype c))
